@@ -85,16 +85,19 @@ func rangeOracle(size int64, hdr string) rangeExp {
 	return rangeExp{ok: true, first: f.Int64(), last: last}
 }
 
+// stripSpaces trims whitespace around the range spec and around its two
+// numbers (what a lenient parser may do); whitespace inside a number stays and
+// keeps the header malformed.
 func stripSpaces(h string) string {
 	if !strings.HasPrefix(h, "bytes=") {
 		return h
 	}
-	return "bytes=" + strings.Map(func(r rune) rune {
-		if r == ' ' || r == '\t' {
-			return -1
-		}
-		return r
-	}, h[6:])
+	spec := strings.TrimSpace(h[6:])
+	i := strings.Index(spec, "-")
+	if i < 0 {
+		return "bytes=" + spec
+	}
+	return "bytes=" + strings.TrimSpace(spec[:i]) + "-" + strings.TrimSpace(spec[i+1:])
 }
 
 func rangeHeaders(n int64) []string {
@@ -119,7 +122,8 @@ func rangeHeaders(n int64) []string {
 			add("bytes=" + f + "-" + l)
 		}
 	}
-	for _, h := range []string{"bytes=", "bytes=1", "bytes=a-b", "bytes=1-2-3", "bytes=--1", "bytes=-", "bytes", "", "boats=0-1", "BYTES=0-1", "Bytes=0-1", "bytes=0-1,2-3", "bytes=0-0,-1", "bytes= 1 - 2 ", "bytes=1 -2", "bytes= -2", "bytes=1- ", "bytes=0x1-2", "bytes=1-2;q=1", "bytes=１-2", "bytes=+1-2", "bytes=1-+2", "bytes=1e0-2", " bytes=0-1", "bytes =0-1"} {
+	for _, h := range []string{"bytes=", "bytes=1", "bytes=a-b", "bytes=1-2-3", "bytes=--1", "bytes=-", "bytes", "", "boats=0-1", "BYTES=0-1", "Bytes=0-1", "bytes=0-1,2-3", "bytes=0-0,-1", "bytes= 1 - 2 ", "bytes=1 -2", "bytes= -2", "bytes=1- ", "bytes=0x1-2", "bytes=1-2;q=1", "bytes=１-2", "bytes=+1-2", "bytes=1-+2", "bytes=1e0-2", " bytes=0-1", "bytes =0-1",
+		"bytes=0 1-0 2", "bytes=0 0-0 1", "bytes=0 1-", "bytes=-0 1", "bytes=0\t1-2", "bytes=1-0 2", "bytes=0-1 ,", "bytes=0-1, "} {
 		add(h)
 	}
 	return out
